@@ -2161,6 +2161,23 @@ func (s *inProcessClientStream) SendMsg(m interface{}) error {
 	}
 	s.reqMu.Lock()""", "R4", "send-does-not-wait-for-receive", "SendMsg consults the receive side's state under respMu, which RecvMsg holds while blocked")
 
+v("C18", "some-message-pairs-go-through-the-codec", "inprocgrpc/cloner.go", None, None, "R2", "message-pair-takes-the-checked-copy", "a class of proto messages is routed to the codec round trip, which checks no types", edits=[
+    {"file": "inprocgrpc/cloner.go", "old": "	if inIsProto && outIsProto {\n		return internal.CopyMessage(out, in)", "new": "	if inIsProto && outIsProto && !hasXXX(out) {\n		return internal.CopyMessage(out, in)"},
+    {"file": "inprocgrpc/cloner.go", "old": "func (ProtoCloner) Clone(in interface{}) (interface{}, error) {", "new": """func hasXXX(m interface{}) bool {
+	_, ok := m.(interface{ XXX_WellKnownType() string })
+	return ok
+}
+
+func (ProtoCloner) Clone(in interface{}) (interface{}, error) {"""},
+])
+
+v("C19", "methodless-service-skipped", "cmd/protoc-gen-grpchan/protoc-gen-grpchan.go",
+  """	for _, sd := range fd.GetServices() {
+		svcName := names.CamelCase(sd.GetName())""", """	for _, sd := range fd.GetServices() {
+		if len(sd.GetMethods()) == 0 {
+			continue
+		}
+		svcName := names.CamelCase(sd.GetName())""", "R2", "registration-for-every-service", "a service without methods gets no registration function")
 # ------------------------------------------------------------------ wave-2 rules (C15-C20)
 v("C15", "methods-scratch-slice-reused", "server.go",
   """	for _, svc := range m {
